@@ -1,5 +1,6 @@
 //! mc-adapt: adapters from the explorer's type-erased world to tevec's generic API.
 //! Everything here is generic; the check binaries choose the instantiations.
+pub mod aggs;
 pub mod backends;
 pub mod elem;
 pub mod maps;
